@@ -103,6 +103,18 @@ func c10Check(cs *drv.Case, frame []byte, stream bool) {
 			n := rd.ReadLen()
 			rd.Release(nil)
 			judge("Decode/BytesReader", dp, err, n)
+			if err == nil && reason == "" && where == 0 {
+				// the decoded maps are values: overwrite the input and look again
+				for k := range in {
+					in[k] = 0xFF
+				}
+				if !mapsEqualInt(dp.IntInfo, od.IntInfo) || !mapsEqualStr(dp.StrInfo, od.StrInfo) {
+					d := detail()
+					d["message"] = "the decoded maps changed after the input buffer was overwritten"
+					cs.Fail("decoded-maps-alias-input", nil, d)
+				}
+				copy(in, frame)
+			}
 			dp2, err2 := ttheader.DecodeFromBytes(ctx, in)
 			if (err == nil) != (err2 == nil) || (err == nil && (dp2.HeaderLen != dp.HeaderLen || dp2.PayloadLen != dp.PayloadLen)) {
 				d := detail()
